@@ -160,10 +160,12 @@ func (c *compiler) compileImport(i *Import) error {
 		} else {
 			return fmt.Errorf("module not found: %q", path)
 		}
+		// not pushVariable: the name may be that of a global variable, which
+		// the modules imported later still refer to
 		c.append(&code{op: oppush, v: vals})
-		c.append(&code{op: opstore, v: c.pushVariable(alias)})
+		c.append(&code{op: opstore, v: c.createVariable(alias)})
 		c.append(&code{op: oppush, v: vals})
-		c.append(&code{op: opstore, v: c.pushVariable(alias + "::" + alias[1:])})
+		c.append(&code{op: opstore, v: c.createVariable(alias + "::" + alias[1:])})
 		return nil
 	}
 	var q *Query
